@@ -662,7 +662,7 @@ def tasks(tier):
     t = [('contracts.c18', n, {}) for n in ('task_keys', 'task_precedence', 'task_values', 'task_run', 'task_concrete')] + c18_layered.tasks(tier)
     # dependency closure: what --save / --cache store is Simulation.to_dict: the stored solver options carry the forward tolerance whatever the
     # run did before (Simulation contracts of C12, re-run here)
-    t += [('contracts.c12', 'task_op', dict(op='to_dict'))]
+    t += [('contracts.c12', 'task_op', dict(op=o)) for o in ('to_dict', 'reload', 'clean_computed', 'model_update')]   # --load / --cache: from_dict; --clean: clean + model
     return t
 
 
